@@ -42,6 +42,9 @@ CLAIMS = {
  "C13": ("Generated batches of mixed connections, consumer timings and close instants against the public listener-wrapper API on loopback sockets; each connection's fate (delivered once with its exact unconsumed stream and TLS state, or never delivered and closed), Accept's behaviour after Close and the absence of left-over listener goroutines are checked.",
          "Real sockets and scheduler; harness matchers/handlers select the fate of a connection from its first byte; goroutine leaks are detected by scanning runtime.Stack for layer4.(*listener) frames.",
          "property-based testing (rapid) over connection mixes and schedules; per-connection reference outcome"),
+ "C08": ("Generated batches of simultaneous tagged connections through one shared configuration (all handlers and policies that keep shared state) on real loopback sockets at several GOMAXPROCS values, each connection compared with what it would get alone; the same workloads under the Go race detector, where any report with a caddy-l4 frame counts. Interleavings are sampled.",
+         "The Go race detector (happens-before, only executed accesses) and the OS scheduler; tags in position-coded streams make cross-talk visible at a computable offset.",
+         "property-based testing (rapid) of concurrent batches + dynamic race detection"),
 }
 NOT_YET = "check not built yet in this session (planned, see DESIGN.md); not claimed until it is"
 
